@@ -15,6 +15,46 @@ def main(tier_):
         v.violation(dict(sig, family="real-budgets"), desc, rep)
     cov["real_link_budgets"] = dict(states=covb["states"], cases=covb["traces_validated_against_impl"], budget_cases=covb["budget_cases"], budget_constant_drift=covb["budget_constant_drift"], oracle_vs_kernel_mismatch=covb["oracle_vs_kernel_mismatch"],
                                     agree_kernel=covb["agree_kernel"], agree_emulated=covb["agree_emulated"])
+    # long spellings (the quantifier: every path byte string shorter than PATH_MAX): thousands of components, 255/256-byte
+    # names, paths at and beyond PATH_MAX -- library on both backends against the raw openat2 of the kernel
+    from checks.lookup_static import op_to_calls
+    n255 = "n" * 255
+    ltree = [dict(id=5, p=2, n="d", k="dir"), dict(id=6, p=5, n="f", k="file"), dict(id=7, p=2, n=n255, k="file"), dict(id=8, p=5, n="up", k="lnk", b="../d/./f")]
+    lpaths = ["./" * 2000 + "d/f", "d/../" * 800 + "d/f", n255, n255 + "x", "d" + "/" * 3000 + "f", "d/" + "./" * 1000 + "up", "x" * 4095, "d/" * 2047 + "f", "/" * 4090 + "d", "d/up/" + "../" * 1300 + "d/f"]
+    lops = [dict(op="resolve", nofollow=False, nosym=False), dict(op="resolve", nofollow=True, nosym=True), dict(op="open", acc="RDONLY", odir=False, nofollow=False, nosym=False), dict(op="readlink", nofollow=True, nosym=False)]
+    lcases = []
+    for bname, feat in (("kernel", {"openat2": True}), ("emulated", {"openat2": False})):
+        calls = []
+        for pth in lpaths:
+            for o in lops:
+                lib, ker = op_to_calls(o, pth)
+                calls.append(lib)
+                if bname == "kernel":
+                    calls.append(ker)
+        lcases.append(dict(id="long|" + bname, tree=ltree, feat=feat, trace=False, calls=calls))
+    lres = run_pv(lcases, jobs=2, tag="C01l")
+    def outs(r):
+        return [lib_outcome(x) for x in ((r.get("out") or [{}])[0].get("results") or [])]
+    ko, eo = outs(lres[0]), outs(lres[1])
+    nlong = 0
+    for pi, pth in enumerate(lpaths):
+        for oi, o in enumerate(lops):
+            kidx = 2 * (pi * len(lops) + oi)
+            eidx = pi * len(lops) + oi
+            if kidx + 1 >= len(ko) or eidx >= len(eo):
+                raise ToolError("long-path batch incomplete: %s" % json.dumps(lres)[:300])
+            truth = ko[kidx + 1]
+            if o["op"] == "readlink" and truth[0] == "ok":
+                truth = None          # the reference call only opens the link; bodies are compared between the backends
+            nlong += 1
+            for bname, got in (("kernel", ko[kidx]), ("emulated", eo[eidx])):
+                if ("err", "EAGAIN") in (got, truth) or got == ("err", "SAFETY"):
+                    continue
+                if (truth is not None and got != truth) or (truth is None and ko[kidx] != eo[eidx]):
+                    v.violation(dict(check="static-lookup-long", backend=bname, op=o["op"], plen=len(pth), got=list(got), want=list(truth or ko[kidx])),
+                                "%s backend: %s of a %d-byte path (%s...%s) gave %s, the kernel's in-root resolution gives %s" % (bname, o["op"], len(pth), pth[:24], pth[-12:], got, truth or ko[kidx]),
+                                dict(id="replay", tree=ltree, feat={"openat2": bname == "kernel"}, trace=False, calls=[op_to_calls(o, pth)[0]]))
+    cov["long_path_cases"] = nlong
     rc = v.finish()
     write_evidence("C01", tier_, "model_checking", cov, ASSUME, wall, len(v.violations))
     return rc
